@@ -32,12 +32,19 @@ class BroadcastTo(ArrayExpr):
 
     @functools.cached_property
     def chunks(self):
-        return self._chunks
+        # Axes that carry data (input extent != 1) mirror the input's block
+        # grid, which a rewrite of the input may have changed since
+        # construction; only new and broadcast axes have chunks of their own.
+        ndim_new = len(self._shape) - self.array.ndim
+        return tuple(self._chunks[:ndim_new]) + tuple(
+            bd if old != 1 else new
+            for bd, old, new in zip(self.array.chunks, self.array.shape, self._chunks[ndim_new:])
+        )
 
     def _layer(self) -> dict:
         x = self.array
         shape = self._shape
-        chunks = self._chunks
+        chunks = self.chunks
         ndim_new = len(shape) - x.ndim
 
         dsk = {}
@@ -61,7 +68,7 @@ class BroadcastTo(ArrayExpr):
 
         x = self.array
         try:
-            chunks = [[int(s) for s in c] for c in self._chunks]
+            chunks = [[int(s) for s in c] for c in self.chunks]
         except (TypeError, ValueError):
             # Unknown (nan) chunk sizes can't be expanded; fall back.
             raise NotImplementedError("non-concrete chunks")
